@@ -218,24 +218,41 @@ ATOM_KEYS = ['mit', 'gpl', 'bsd', 'GPL', 'a b', 'x', 'cp', 'lgpl 2.1', 'a', 'b',
 ORDER_KEYS = ['GPL', 'GPL 2', 'GPL 3', 'GPL+', 'GPL-2', 'GPL X', 'GPL W', 'GPL.1', 'a', 'a b', 'a-b', 'a+', 'a WITH b', 'a Z']
 
 
+COLLIDE_KEYS = ['a', 'b', 'c', 'a WITH b', 'b WITH c', 'a AND b', 'mit', 'MIT']
+
+
 def gen_atom(rng, keys=ATOM_KEYS, collide=False):
     from core import enc_str
+    if collide and keys is ATOM_KEYS and rng.random() < 0.5:
+        keys = COLLIDE_KEYS
     def sym():
         k = rng.choice(keys)
         ex = rng.random() < (0.4 if collide else 0.15)
         return [enc_str(k), 1 if ex else 0]
-    if rng.random() < 0.2:
+    if rng.random() < (0.45 if keys is COLLIDE_KEYS else 0.2):
         return [1, sym(), sym()]
     return [0, sym()]
 
 
-def gen_tree(rng, depth=3, maxar=4, keys=ATOM_KEYS, collide=False):
+def clash_atoms():
+    """Different atoms whose renderings coincide: same key with both flags, a plain key spelled like a WITH
+    pair, and WITH pairs whose keys concatenate to the same text."""
+    from core import enc_str
+    def sy(k, e=0):
+        return [enc_str(k), e]
+    return [[1, sy('a WITH b'), sy('c')], [1, sy('a'), sy('b WITH c')], [1, sy('a'), sy('b')], [0, sy('a WITH b')],
+            [0, sy('a WITH b WITH c')], [0, sy('a')], [0, sy('a', 1)], [1, sy('a', 1), sy('b')], [0, sy('c')], [0, sy('mit')]]
+
+
+def gen_tree(rng, depth=3, maxar=4, keys=ATOM_KEYS, collide=False, atoms=None):
     """Random encoded expression tree; every AND/OR has two or more operands."""
     if depth <= 0 or rng.random() < 0.3:
+        if atoms is not None:
+            return [0, rng.choice(atoms)]
         return [0, gen_atom(rng, keys, collide)]
     tag = rng.choice([1, 2])
     n = rng.randint(2, maxar)
-    return [tag, [gen_tree(rng, depth - 1, maxar, keys, collide) for _ in range(n)]]
+    return [tag, [gen_tree(rng, depth - 1, maxar, keys, collide, atoms) for _ in range(n)]]
 
 
 def tree_size(d):
